@@ -253,13 +253,42 @@ def display_length(ctx, eng, disp):
             # the push block must dominate every back edge source of the loop and lie on every iteration
             srcs = [s for (s, hh) in back if hh == h]
             dom = all(body.dominates(p, s) for s in srcs)
-            rng = loop_range(ctx, eng, disp, h)
-            ok_push = hname.endswith('::next') and dom and rng == ('0', 'lines')
-            detail = 'one push, inside one loop (head bb%d, %s), dominating the back edge: %s; loop range %s' % (h, hname.split('::')[-1], dom, rng)
+            rng_ok, rng = loop_range_sem(ctx, eng, disp, h)
+            ok_push = dom and rng_ok
+            detail = 'one push, inside one loop (head bb%d), dominating the back edge: %s; loop range %s' % (h, dom, rng)
         else:
             detail = 'push is inside %d loops' % len(inl)
     out.append(('one-push-per-row-of-0..lines', ok_push, detail, body.blocks[pushes[0]]['term']['span'] if pushes else body.span))
     return out
+
+
+def loop_range_sem(ctx, eng, func, head):
+    """does the loop at `head` of func walk exactly the rows 0..lines, one iteration each, without a way
+    out before the last one?  Decided on the range the engine recorded when it entered the loop (a
+    `for` over a range, or a counting `while`), on every abstract path through func"""
+    from . import rules_grid as g
+    sr = ctx.screen_run()
+    body = ctx.prog.bodies[func]
+    if not g.loop_exits_only_at_head(body, head, eng, func):
+        return False, 'the loop can be left before the last row'
+    n = 0
+    shown = None
+    for r in sr['results'].get(func, []):
+        for (st, ret) in r.finals:
+            d = g.loop_desc_in(st.event_list(), func, head)
+            if d is None:
+                return False, 'a path through display() does not iterate a range at this loop'
+            if d[0] != 'range' or not g.elementwise(d[4]) or not (isinstance(d[1], NumV) and isinstance(d[2], NumV)):
+                return False, 'iterates %r' % (d[:1] + tuple(d[3:]),)
+            lines = get(eng, st, 'lines')
+            hi = NumV(d[2].sym, d[2].k + 1, d[2].ty) if d[3] else d[2]
+            lo_ok = eng.prove_cmp(st, 'eq', d[1], NumV(None, 0, d[1].ty)) is True
+            hi_ok = isinstance(lines, NumV) and eng.prove_cmp(st, 'eq', hi, NumV(lines.sym, lines.k, hi.ty)) is True
+            shown = '%s..%s' % (g.term(eng, st, d[1]), g.term(eng, st, hi))
+            if not (lo_ok and hi_ok):
+                return False, shown + ' (documented 0..lines)'
+            n += 1
+    return n > 0, '%s on %d abstract paths' % (shown, n)
 
 
 def loop_range(ctx, eng, func, head):
